@@ -451,6 +451,23 @@ def c07_closed(m, o):
         checks += 1
         if np.abs(a_s - 100.0 * np.exp(-0.25 * np.asarray(ts_s))).max() > 50 * 1.4e-4 * 101:
             viol.append("odeint with max_step=0.01 over t=[0,8] timestep=4: max error %.4g" % np.abs(a_s - 100.0 * np.exp(-0.25 * np.asarray(ts_s))).max())
+    # caller-supplied tolerances that differ from one another, on compartments far from 1: a linear chain against its
+    # closed form, error within a small multiple of atol + rtol * |y|
+    for (n_, rtol_, atol_) in o.get("tols", [(1e6, 1e-9, 1e-2), (1e-3, 1e-3, 1e-10), (1e6, 1e-3, 1e-9)]):
+        mm = CompartmentalModel([0.0, 4.0], ["S", "I", "R"], ["I"], timestep=0.5)
+        mm.set_initial_population({"S": n_})
+        mm.add_transition_flow("a", 2.0, "S", "I")
+        mm.add_transition_flow("b", 1.5, "I", "R")
+        mm.run(solver="solve_ivp", solver_args={"rtol": rtol_, "atol": atol_}, jit=False)
+        got = np.asarray(mm.outputs, dtype=float)
+        tt = np.asarray(mm.times, dtype=float)
+        ex_s = n_ * np.exp(-2.0 * tt)
+        ex_i = n_ * 2.0 / (1.5 - 2.0) * (np.exp(-2.0 * tt) - np.exp(-1.5 * tt))
+        err = max(np.abs(got[:, 0] - ex_s).max(), np.abs(got[:, 1] - ex_i).max())
+        checks += 1
+        if err > 200 * (atol_ + rtol_ * n_):
+            viol.append("default solver with rtol=%g atol=%g on a chain of size %g: max error %.4g, i.e. %.3g x (atol + rtol x size)"
+                        % (rtol_, atol_, n_, err, err / (atol_ + rtol_ * n_)))
     # a narrow smooth pulse after a long stretch in which nothing happens (all rates exactly zero): closed form
     # S(T) = S0 exp(-a * integral of the Gaussian), on three output grids
     from summer2.parameters import Function as Fn_, Time as Time_
@@ -767,6 +784,17 @@ def c08(m, o):
     p = {k: float(Fraction(v)) for k, v in (o.get("params") or {}).items()}
     viol, checks = [], 0
     solver = o.get("solver", "euler")
+    if o.get("extra") and o.get("program"):
+        # requests outside the model's function library (a ratio with non-finite entries and outputs chained on it):
+        # implementation side only, on a model built here
+        import impl
+        prog_ = o["program"]
+        wl_ = [x for x in prog_["ops"] if x["op"] == "whitelist"]
+        ops_ = [x for x in prog_["ops"] if x["op"] != "whitelist"] + [dict(x, op="req") for x in o["extra"]] + wl_
+        m, err_, why_ = impl.build(dict(prog_, ops=ops_, obs=[]))
+        if err_ is not None:
+            return {"checks": 0, "violations": ["c08: the program with the extra requests does not build: %s" % why_]}
+        o = dict(o, reqs=list(o["reqs"]) + [{"name": x["name"], "req": x["req"], "save": x.get("save", True)} for x in o["extra"]])
     if o.get("prior_params"):
         # the runner is built and run with other parameter values first: the outputs of the second run
         # must be the definitions applied with the parameters of the second run
@@ -816,7 +844,11 @@ def c08(m, o):
             srcs = [vals[s_] for s_ in r["sources"]]
             ps = [_pyexpr(e, p, 0.0, []) for e in r.get("params", [])]
             fn = int(r["fn"])
-            v = ps[0] * srcs[0] if fn == 0 else (srcs[0] + ps[0] * srcs[1] if fn == 1 else srcs[0] * srcs[1])
+            if fn == 3:
+                with np.errstate(all="ignore"):
+                    v = srcs[0] / (srcs[1] - srcs[1][0])
+            else:
+                v = ps[0] * srcs[0] if fn == 0 else (srcs[0] + ps[0] * srcs[1] if fn == 1 else srcs[0] * srcs[1])
         elif t_ == "cv":
             e = o["cvs"][r["name"]]
             v = np.array([_pyexpr(e, p, float(t), np.where(row < 0, 0.0, row)) for t, row in zip(ts, out)])
@@ -825,8 +857,11 @@ def c08(m, o):
         vals[name] = np.asarray(v, dtype=float)
         if name in D:
             checks += 1
-            scale = 1 + np.abs(vals[name]).max()
-            if D[name].shape != vals[name].shape or np.abs(D[name] - vals[name]).max() > 1e-8 * scale:
+            fin = np.isfinite(vals[name])
+            scale = 1 + (np.abs(vals[name][fin]).max() if fin.any() else 0.0)
+            same_holes = D[name].shape == vals[name].shape and np.array_equal(np.isnan(D[name]), np.isnan(vals[name])) \
+                and np.array_equal(np.isposinf(D[name]), np.isposinf(vals[name])) and np.array_equal(np.isneginf(D[name]), np.isneginf(vals[name]))
+            if not same_holes or (fin.any() and np.abs(D[name][fin] - vals[name][fin]).max() > 1e-8 * scale):
                 viol.append("derived output %s (%s) = %s, its definition gives %s" % (name, t_, np.round(D[name], 8)[:5], np.round(vals[name], 8)[:5]))
     expected_keys = whitelist if whitelist else [rq["name"] for rq in o["reqs"] if rq.get("save", True)]
     checks += 1
@@ -1564,6 +1599,10 @@ def c15(m, o):
             inv_s = lambda s_: s_ if s_ == "age" else s_[1:]
             inv_st = lambda strat, st: st if strat == "age" else st[:-1]
             compare(name, run(prog2, key=lambda s_: TR.comp_key(s_, inv_c, inv_s, inv_st)))
+        elif name.startswith("rename (stratum labels shared"):
+            order_ = {x["name"]: [str(v) for v in x["strata"]] for x in o["program"]["ops"] if x["op"] == "strat"}
+            inv_st2 = lambda strat, st: st if (strat == "age" or not st.startswith("L")) else order_[strat][int(st[1:])]
+            compare(name, run(prog2, key=lambda s_: TR.comp_key(s_, lambda c: c, lambda s__: s__, inv_st2)))
         elif name.startswith("scale"):
             compare(name, run(prog2), factor=float(Fraction(o["scale"])), tol=1e-9, derived=o.get("derived_homogeneous", True))
         else:
@@ -1726,7 +1765,11 @@ def c11(m, o):
             r_.run(dict(given))
         except BaseException:  # noqa
             return
-        checks += 2
+        checks += 3
+        left = list(mm.derived_outputs)
+        if left != keys[:1]:
+            viol.append("after a full run, a runner for the derived outputs %s leaves %s on the model (a fresh model gives %s)"
+                        % (keys[:1], left, keys[:1]))
         dd = snapshot_diff(snap, definition_snapshot(mm))
         if dd:
             viol.append("building a runner for the derived outputs %s changed the definition: %s" % (keys[:1], dd))
